@@ -67,8 +67,6 @@ package flow
 //@   pure
 //@ func (*adt.Vertex).LeafConjuncts
 //@   assumed A-int: iterator over conjuncts
-//@ func slices.Collect
-//@   assumed A-ext
 //@ func (cue.Value).Exists
 //@   assumed A-int: reads only
 //@ func eval.NewContext
